@@ -64,10 +64,22 @@ type Explorer struct {
 	Pairs     map[string]struct{} // distinct (pre-state line, action) pairs are trivially all; kept for distinct (act kind, ok) classes
 }
 
-func (e *Explorer) emit(parent int, a Action, res TxResult, ctx sdk.Context, digests []string) (int, error) {
+func (e *Explorer) emit(parent int, a Action, res TxResult, ctx sdk.Context, digests []string, pre, post *Snapshot) (int, error) {
 	st, err := e.W.Project(ctx)
 	if err != nil {
 		return 0, fmt.Errorf("projection failed after %s: %v", a.Key(), err)
+	}
+	post.Created = map[string]int64{}
+	for k, rec := range st.EPay {
+		h, seen := int64(0), false
+		if pre != nil {
+			h, seen = pre.Created[k]
+		}
+		if !seen {
+			h = ctx.BlockHeight()
+		}
+		post.Created[k] = h
+		rec["createdAt"] = h
 	}
 	evs, err := e.W.ProjectEvents(res.Events)
 	if err != nil {
@@ -93,7 +105,7 @@ func (e *Explorer) emit(parent int, a Action, res TxResult, ctx sdk.Context, dig
 func (e *Explorer) apply(pre *Snapshot, parent int, a Action) (*Snapshot, int, error) {
 	if a.Act == "NextBlock" {
 		post := &Snapshot{Height: pre.Height + a.Gap, Stores: pre.Stores}
-		id, err := e.emit(parent, a, TxResult{OK: true}, e.W.Ctx(post), nil)
+		id, err := e.emit(parent, a, TxResult{OK: true}, e.W.Ctx(post), nil, pre, post)
 		return post, id, err
 	}
 	reps := e.Reps
@@ -119,7 +131,7 @@ func (e *Explorer) apply(pre *Snapshot, parent int, a Action) (*Snapshot, int, e
 			first, firstCtx, firstRes = post, b, res
 		}
 	}
-	id, err := e.emit(parent, a, firstRes, firstCtx, digests)
+	id, err := e.emit(parent, a, firstRes, firstCtx, digests, pre, first)
 	return first, id, err
 }
 
@@ -245,7 +257,7 @@ func Explore(w *World, out *vcommon.Writer, o Options) (*Explorer, error) {
 	}
 	root.needed = true
 	e := &Explorer{W: w, Out: out, Alphabet: o.Alphabet, Reps: o.Reps, RepsAudit: o.RepsAudit, MaxHeight: o.MaxHeight, Pairs: map[string]struct{}{}}
-	id, err := e.emit(0, Action{Act: "Init"}, TxResult{OK: true}, w.Root, nil)
+	id, err := e.emit(0, Action{Act: "Init"}, TxResult{OK: true}, w.Root, nil, nil, w.genesis)
 	if err != nil {
 		return e, err
 	}
